@@ -7,9 +7,12 @@ pub mod c06;
 pub mod c07;
 pub mod c08;
 pub mod c11;
+pub mod c12;
+pub mod c13;
 pub mod c14;
 pub mod c15;
 pub mod c16;
+pub mod c17;
 pub mod c18;
 
 pub fn get(id: &str) -> Option<Box<dyn Monitor>> {
@@ -21,9 +24,12 @@ pub fn get(id: &str) -> Option<Box<dyn Monitor>> {
         "C07" => Some(Box::new(c07::C07)),
         "C08" => Some(Box::new(c08::C08)),
         "C11" => Some(Box::new(c11::C11)),
+        "C12" => Some(Box::new(c12::C12)),
+        "C13" => Some(Box::new(c13::C13)),
         "C14" => Some(Box::new(c14::C14)),
         "C15" => Some(Box::new(c15::C15)),
         "C16" => Some(Box::new(c16::C16)),
+        "C17" => Some(Box::new(c17::C17)),
         "C18" => Some(Box::new(c18::C18)),
         _ => None,
     }
